@@ -9,10 +9,10 @@ from props.histgen import small_other
 from props.mutcommon import compare_mutate, py_mutate, check_wf
 
 RULE = ('pairs (base, other) of random circuits x connector choices (internal base gates, repeated base gates, '
-        'partial lists, empty) x {left, right} x wrappers (connect_left/right/inputs, extend_circuit, add_circuit) x '
+        'repeated attached gates, partial lists, empty; bases that already own a copy label `name@x`) x {left, right} x wrappers (connect_left/right/inputs, extend_circuit, add_circuit) x '
         'name/prefix options x 1..3 successive compositions; then evaluation of the result on all assignments, '
         'copy, block extraction; non-trivial = both circuits have >=1 non-input gate; distinct by request')
-ASSUMPTIONS = ['both operands well formed (WFU); right connection uses distinct base inputs and distinct other gates']
+ASSUMPTIONS = ['both operands well formed (WFU)']
 TRUSTED = ['search oracle: composition of the two operands\' evaluations (real evaluator, certified in C01) computed '
            'in the harness; Lean checkWFU on the result']
 
@@ -33,12 +33,38 @@ def gen_connect(rng, base, other, allow_repeated_other=False):
         thisc = rng.sample(base['inputs'], k)
         otherc = rng.sample(olabels, min(k, len(olabels)))
         thisc = thisc[:len(otherc)]
+        if len(otherc) >= 2 and rng.random() < 0.3:
+            otherc[1] = otherc[0]        # one gate of the attached circuit feeding two base inputs: refused
     else:
         k = rng.randint(0, len(other['inputs']))
         otherc = rng.sample(other['inputs'], k)
         thisc = [rng.choice(blabels) for _ in otherc]
     name = rng.choice(['', '', 'blk', 'Sub'])
     return ['connect', other, thisc, otherc, right, name, rng.random() < 0.7]
+
+
+def add_clash(rng, base, st):
+    """the base with one more gate (an output) whose label is the prefixed copy label of a non-connector gate of the
+    attached circuit — what a BENCH round trip or `delete_block` followed by reuse of the block name leaves behind.
+    The composition must not be returned with that gate redefined."""
+    d = documented(base, st)
+    _, other, thisc, otherc, right, name, addp = d
+    if not (name != '' and addp):
+        return base
+    cands = [g[0] for g in other['gates'] if g[0] not in otherc]
+    if not cands:
+        return base
+    lab = name + '@' + rng.choice(cands)
+    blabels = [g[0] for g in base['gates']]
+    if lab in blabels:
+        return base
+    a, b = rng.choice(blabels), rng.choice(blabels)
+    j = {'gates': [list(g) for g in base['gates']] + [[lab, rng.choice(['NOR', 'XOR', 'NAND']), [a, b]]],
+         'inputs': list(base['inputs']), 'outputs': list(base['outputs']) + [lab], 'blocks': [list(b) for b in base.get('blocks', [])]}
+    try:
+        return realize(j)
+    except Exception:  # noqa: BLE001
+        return base
 
 
 def wrapper_step(rng, base, other):
@@ -56,8 +82,6 @@ def wrapper_step(rng, base, other):
         return ['wrap', w, other, None, None, True, name, addp]
     if w == 'extend':
         right = rng.random() < 0.3
-        if right and len(set(other['outputs'])) != len(other['outputs']):
-            right = False            # the documented composition is stated for distinct right connectors (ASSUMPTIONS)
         kind = rng.choice(['defaults', 'defaults', 'empty', 'explicit', 'half'])
         if kind == 'defaults':
             return ['wrap', w, other, None, None, right, name, addp]
@@ -104,6 +128,8 @@ def correspondence(ctx):
         for _ in range(rng.choice([1, 1, 2, 3])):
             other = small_other(rng, rng.choice(['o', 'p', 'q', 'r']))
             steps.append(gen_connect(rng, cur_base, other) if rng.random() < 0.7 else wrapper_step(rng, cur_base, other))
+        if len(steps) == 1 and rng.random() < 0.06:
+            base = add_clash(rng, base, steps[0])
         # half of the histories end by extracting the last named block as a circuit, the others by a copy
         last = steps[-1]
         bname = last[5] if last[0] == 'connect' else last[6]
@@ -157,9 +183,16 @@ def search(ctx):
     for k in range(ctx.scale(300, 8000)):
         base, other = gen_pair(ctx, rng)
         st_run = gen_connect(rng, base, other) if rng.random() < 0.7 else wrapper_step(rng, base, other)
+        if rng.random() < 0.08:
+            nb = add_clash(rng, base, st_run)
+            if nb is not base:
+                base = nb
+                ctx.count('directed:copy_label_taken')
         st = documented(base, st_run)
         other = st[1]
         _, _, thisc, otherc, right, name, addp = st
+        if right and len(set(otherc)) != len(otherc):
+            ctx.count('directed:repeated_right_connector')
         if st_run[0] == 'wrap':
             ctx.count('wrapper:' + st_run[1])
         nontriv = any(g[1] != 'INPUT' for g in base['gates']) and any(g[1] != 'INPUT' for g in other['gates'])
